@@ -37,12 +37,15 @@ type controllingSelector struct {
 	startTime     time.Time
 	agent         *Agent
 	nominatedPair *CandidatePair
-	log           logging.LeveledLogger
+	// answeredNomination is the greatest renomination value whose success response was processed.
+	answeredNomination *uint32
+	log                logging.LeveledLogger
 }
 
 func (s *controllingSelector) Start() {
 	s.startTime = time.Now()
 	s.nominatedPair = nil
+	s.answeredNomination = nil
 }
 
 func (s *controllingSelector) isNominatable(c Candidate) bool {
@@ -211,10 +214,17 @@ func (s *controllingSelector) HandleSuccessResponse(
 
 		// If this is a renomination request (has nomination value), always update the selected pair
 		// If it's a standard nomination (no value), only set if no pair is selected yet
-		if pendingRequest.nominationValue != nil {
-			s.log.Infof("Renomination success response received for pair %s (nomination value: %d), switching to this pair",
-				pair, *pendingRequest.nominationValue)
-			s.agent.setSelectedPair(pair)
+		if value := pendingRequest.nominationValue; value != nil {
+			// The controlled agent keeps the nomination with the greatest value: follow it, not
+			// the order in which the responses happen to arrive.
+			if s.answeredNomination != nil && *value <= *s.answeredNomination {
+				s.log.Tracef("Ignore success response for superseded renomination %d on pair %s", *value, pair)
+			} else {
+				s.log.Infof("Renomination success response received for pair %s (nomination value: %d), switching to this pair",
+					pair, *value)
+				s.answeredNomination = value
+				s.agent.setSelectedPair(pair)
+			}
 		} else if selectedPair == nil {
 			s.agent.setSelectedPair(pair)
 		}
